@@ -21,6 +21,10 @@ EXPLANATION = (
   ' (DEF-local) no local of the SRT reader is read unassigned; (FIN-timeexpr) the cue time arithmetic equals h*3600 + m*60 + s + ms/1000 on a grid; (NUL-parent) parent walks stop at the paragraph;'
   ' (ORD-br / PAIR-span) a line break is appended to the open element before text continues, and every opened span is closed by its end tag;'
   ' (NUL-htmlattr) in subclasses of HTMLParser the value of an attribute, which is None for an attribute written without a value, is tested against None before it is passed on or dereferenced;'
+  ' (LINT-l) no tuple / list / set display of the anchored modules lists the same computed component twice and no dict display repeats a key (a key or fingerprint built that way cannot tell apart what the missing component would have);'
+  ' (STATE-share) no assignment stores a container field of one object (a field the package updates in place) into a field of another object without copying it, so an in-place update of one object never changes another;'
+  " (ITEM-source) an object built once per item of an inner loop is filled only with values that derive from that item or do not vary with the loops, never with a value of the enclosing container standing where the item's own belongs;"
+  ' (PAIR-close) every feed() of cue text to the HTMLParser-based text parser is followed by close() on every path, so the tail that HTMLParser holds back is delivered;'
 )
 RULE_TEXT = "EXA/DEF/NUL: per call site / function; FMT: per sample timing line; TAB-tags: per writer tag literal"
 UNDECIDED = ["tag scoping for nested/adjacent tags", "line splitting and blank-line handling", "counter tolerance"]
@@ -153,6 +157,8 @@ def run(ctx):
   check_time_expressions(ctx)
   shape.check_line_breaks(ctx, ix.func("ttconv.srt.reader:_TextParser.handle_data"))
   shape.check_span_pairing(ctx, ix.func("ttconv.srt.reader:_TextParser.handle_starttag"), ix.func("ttconv.srt.reader:_TextParser.handle_endtag"))
+  npc = shape.check_feed_close(ctx, fs)
+  ctx.floor("PAIR-close", "feed() calls on HTMLParser instances", npc, 1)
   lint.falsy_numeric_default(ctx, common.mods(ctx, ["ttconv.srt.reader", "ttconv.utils"]))
   from ..selfcheck import falsy_default_fixture_matches
   ctx.check(falsy_default_fixture_matches(), "LINT-i", "fixture|a number defaulted with `or` is detected", "ttverif/fixtures/falsy_default.py", "the rule still matches its positive fixture", "LINT-i no longer matches its positive fixture (rule broken)")
